@@ -49,6 +49,7 @@ def parse_level(level):
 def route_case(draw):
     nmods = draw(st.integers(2, 3))
     nconn = draw(st.integers(1, 3))
+    hidden = draw(st.integers(0, 2)) == 0      # the node has a module which is not exported: nobody can subscribe to its log
     ops = []
     levels = ['debug', 'info', 'warning', 'error', 'off', 'comlog', 'DEBUG', 'Info', 'OFF', 10, 20, 30, 40, 99, 15,
               'nonsense', '', 5, None, True, 1.5, [], {'a': 1}, 'warn', 'critical', 50, 0, -1, 20.0]
@@ -56,13 +57,14 @@ def route_case(draw):
         kind = draw(st.sampled_from(['logging', 'logging', 'emit', 'emit', 'emit', 'idn', 'disconnect']))
         c = draw(st.integers(0, nconn - 1))
         if kind == 'logging':
-            mod = draw(st.sampled_from([f'm{i}' for i in range(nmods)] + ['.', None, 'nomod', 'M0']))
+            mod = draw(st.sampled_from([f'm{i}' for i in range(nmods)] + ['.', None, 'nomod', 'M0'] + (['hid', 'hid', '.'] if hidden else [])))
             ops.append({'op': 'logging', 'conn': c, 'mod': mod, 'level': draw(st.sampled_from(levels))})
         elif kind == 'emit':
-            ops.append({'op': 'emit', 'mod': f'm{draw(st.integers(0, nmods - 1))}', 'levelno': draw(st.sampled_from(EMIT_LEVELS))})
+            ops.append({'op': 'emit', 'mod': 'hid' if hidden and draw(st.integers(0, 3)) == 0 else f'm{draw(st.integers(0, nmods - 1))}',
+                        'levelno': draw(st.sampled_from(EMIT_LEVELS))})
         else:
             ops.append({'op': kind, 'conn': c})
-    return {'kind': 'route', 'nmods': nmods, 'nconn': nconn, 'ops': ops}
+    return {'kind': 'route', 'nmods': nmods, 'nconn': nconn, 'hidden': hidden, 'ops': ops}
 
 
 def check_route(ctx, case):
@@ -76,7 +78,12 @@ def check_route(ctx, case):
 
 def _check_route(ctx, case, Module):
     classes = [type(f'L{i}', (Module,), {}) for i in range(case['nmods'])]
-    kit = Kit({f'm{i}': {'cls': c, 'description': 'logging module'} for i, c in enumerate(classes)})
+    cfg = {f'm{i}': {'cls': c, 'description': 'logging module'} for i, c in enumerate(classes)}
+    if case.get('hidden'):
+        cfg['hid'] = {'cls': type('Hidden', (Module,), {}), 'description': 'not exported', 'export': False}
+    elif any(op.get('mod') == 'hid' for op in case['ops']):
+        return
+    kit = Kit(cfg)
     kit.log.setLevel(logging.DEBUG)
     conns = [FakeConn(f'c{i}') for i in range(case['nconn'])]
     for c in conns:
@@ -95,7 +102,7 @@ def _check_route(ctx, case, Module):
             if not alive[c]:
                 continue
             lev = parse_level(op['level'])
-            target = mods if op['mod'] in ('.', None) else [op['mod']] if op['mod'] in mods else None
+            target = mods if op['mod'] in ('.', None, '') else [op['mod']] if op['mod'] in mods else None
             old = dict(table)
             r = kit.request(conns[c], ('logging', op['mod'], op['level']))
             ctx.label('logging:valid' if lev is not None and target else 'logging:invalid')
